@@ -21,22 +21,25 @@ Classes == {"Derivative", "Gradient", "Jacobian", "Hessdiag", "Hessian"}
 ComplexStep == {"complex", "multicomplex"}
 
 Configs ==
-  [cls : Classes, m : {"central", "forward", "complex", "multicomplex"}, n : 1..4,
-   xc : BOOLEAN,          \* x has a non-zero imaginary part
-   fc : BOOLEAN,          \* f(x) is complex-valued
+  [cls : Classes, m : {"central", "forward", "complex", "multicomplex"}, n : 1..6,
+   xc : 0..2,             \* x: 0 real, 1 every element has a non-zero imaginary part, 2 only some elements have
+   fc : 0..2,             \* f(x): 0 real, 1 complex-valued, 2 complex-valued in some components / for some elements only
    vec : BOOLEAN,         \* f returns one value per input element
    few : BOOLEAN,         \* the user generator yields fewer steps than the rule needs
    dim : 1..3, full : BOOLEAN,
    via : {"ctor", "setter"}]   \* the method was given to the constructor, or assigned to obj.method afterwards
 
 Valid(k) == /\ (k.cls \in {"Gradient", "Jacobian"} => k.n = 1)
+            /\ (k.xc = 2 => k.dim > 1)                                                        \* "some" needs several elements
+            /\ (k.fc = 2 => (k.cls = "Jacobian" \/ (k.cls = "Derivative" /\ k.dim > 1 /\ k.vec)))  \* ... or several components
+            /\ (k.n > 4 => k.m = "multicomplex")                                              \* n = 5, 6 only matter for the n > 2 guard
             /\ (k.cls \in {"Hessdiag", "Hessian"} => k.n = 2)
             /\ (k.cls # "Derivative" => k.vec)            \* the size guard concerns elementwise Derivative
             /\ (k.cls = "Hessian" => ~k.few)              \* Hessian applies no rule
             /\ (k.m = "multicomplex" => ~k.few)
 
 \* ---- the requirement
-MisuseComplex(k) == k.m \in ComplexStep /\ (k.xc \/ k.fc)
+MisuseComplex(k) == k.m \in ComplexStep /\ (k.xc > 0 \/ k.fc > 0)
 MisuseMultiN(k)  == k.m = "multicomplex" /\ k.n > 2
 MisuseSize(k)    == ~k.vec /\ k.dim > 1
 MisuseSteps(k)   == k.few
@@ -54,7 +57,7 @@ Configure == pc = "New" /\ pc' = "Start" /\ UNCHANGED c
 GetSteps == pc = "Start" /\ pc' = "EvalFirst" /\ UNCHANGED c
 EvalFirst ==
   /\ pc = "EvalFirst" /\ UNCHANGED c
-  /\ pc' = IF c.m \in ComplexStep /\ HasEvalFirstGuard(c) /\ (c.xc \/ c.fc) THEN "ValueError" ELSE "Stencil"
+  /\ pc' = IF c.m \in ComplexStep /\ HasEvalFirstGuard(c) /\ (c.xc > 0 \/ c.fc > 0) THEN "ValueError" ELSE "Stencil"
 Stencil ==      \* diff-name lookup: multicomplex with n > 2 has no difference function
   /\ pc = "Stencil" /\ UNCHANGED c
   /\ pc' = IF MisuseMultiN(c) THEN "ValueError" ELSE "SizeCheck"
